@@ -371,8 +371,33 @@ func c09Lifecycle(c *Ctx) {
 		c.R.Checkf(rule, "beginUse-rechecks-after-increment", c.pos(f.Pos()), ok, "after taking its in-flight reference beginUse tests the retired flag again before admitting the query, and gives the reference back when it lost the race (otherwise a retire() between the first test and the increment closes the forwarder under an admitted query)")
 	}
 	if f := c.fn(rule, "control", "cachedDnsForwarder.endUse"); f != nil {
-		full := core.FullStr(f.Body)
-		c.R.Checkf(rule, "endUse-closes-last-user-of-retired", c.pos(f.Pos()), strings.Contains(full, ".inFlight.Add(-1) == 0 && c.retired.Load()"), "the last in-flight user of a retired entry closes it")
+		// structural: the closeNow call is guarded by "the decrement reached zero" and "retired", in whatever arrangement
+		g := f.Graph()
+		okEnd := false
+		for _, p := range g.Find(func(n ast.Node) bool {
+			r := false
+			ownCalls(n, func(call *ast.CallExpr, _ bool) {
+				if _, name, isM := methodCall(call); isM && name == "closeNow" {
+					r = true
+				}
+			})
+			return r
+		}) {
+			zero, retired := false, false
+			for _, gd := range g.Guards(p) {
+				s := nospace(core.ExprStr(gd.Cond))
+				if gd.Polarity && strings.Contains(s, ".inFlight.Add(-1)==0") {
+					zero = true
+				}
+				if gd.Polarity && strings.HasSuffix(s, ".retired.Load()") {
+					retired = true
+				}
+			}
+			if zero && retired {
+				okEnd = true
+			}
+		}
+		c.R.Checkf(rule, "endUse-closes-last-user-of-retired", c.pos(f.Pos()), okEnd, "the last in-flight user of a retired entry closes it")
 	}
 	// every successful beginUse is followed by endUse on all paths
 	n := 0
